@@ -670,8 +670,8 @@ def _fold_attr_snapshots(fnode):
     for n in ast.walk(fnode):
         if isinstance(n, ast.Assign) and len(n.targets) == 1 and isinstance(n.targets[0], ast.Name) \
                 and isinstance(n.value, ast.Attribute) and isinstance(n.value.value, ast.Name) and n.value.value.id in params \
-                and not n.value.attr.startswith('_') and count.get(n.targets[0].id) == 1 and n.targets[0].id not in params \
-                and count.get(n.value.value.id, 0) == 0:
+                and not (n.value.attr.startswith('__') and n.value.attr.endswith('__')) and count.get(n.targets[0].id) == 1 \
+                and n.targets[0].id not in params and count.get(n.value.value.id, 0) == 0:
             cands[n.targets[0].id] = n
     if not cands:
         return False
@@ -709,10 +709,11 @@ def _fold_attr_snapshots(fnode):
                 ok = False      # a call inside the reading statement: evaluation order
             for i in impure:
                 if i is r:
-                    if any(g.reaches(b_, r) for b_, _l in g.succ.get(r, ())):
-                        ok = False      # in a loop: the store of one iteration precedes the read of the next
+                    if any(b_ is not snap and g.reaches(b_, r, avoid={snap}) for b_, _l in g.succ.get(r, ())):
+                        ok = False      # in a loop: the store of one iteration precedes the read of the next (unless the
+                        #                 snapshot is taken again in between)
                     continue
-                if g.reaches(snap, i) and g.reaches(i, r):
+                if g.reaches(snap, i) and any(b_ is not snap and g.reaches(b_, r, avoid={snap}) or b_ is r for b_, _l in g.succ.get(i, ())):
                     ok = False
         if ok:
             val[name] = snap
